@@ -2,11 +2,24 @@
 //! (`shard_file_size()`, maintained incrementally by add_cas_block / add_file_reconstruction_info and recomputed by
 //! recalculate_shard_size in union / difference) against the number of bytes the REAL `MDBShardInfo::serialize_from` writes, for
 //! shards with repeated file hashes, repeated xorbs and xorbs sharing chunk hashes.  Prints `WITNESS ...` and exits 1 on a mismatch.
+//!
+//! S5 (byte totals beyond 32 bits; entries only, no data): synthetic shards holding one file of 63 / 64 / 80 segments of 64 MiB
+//! (3.94 GiB - just below 2^32 -, exactly 4 GiB, 5 GiB), each segment a whole xorb of 16 chunks of 4 MiB, plus a few small files; and
+//! one shard holding all three big files (the xorb section then stores 12.9 GiB).  The byte totals `materialized_bytes`,
+//! `stored_bytes`, `stored_bytes_on_disk` must equal independent u64 sums over the records - in the in-memory shard, in the footer
+//! that `MDBShardInfo::serialize_from` writes (as returned and as read back), in what `MDBMinimalShard::serialize`,
+//! `export_as_keyed_shard`, `shard_set_union` with a small shard (both operand orders), `shard_set_difference` and
+//! `MDBInMemoryShard::union` / `difference` recompute; the size counter is compared as in S1-S4.  A panic of the code under test
+//! (e.g. an arithmetic overflow in a debug build) is reported as WITNESS as well.
 use mdb_shard::cas_structs::{CASChunkSequenceEntry, CASChunkSequenceHeader, MDBCASInfo};
 use mdb_shard::file_structs::{FileDataSequenceEntry, FileDataSequenceHeader, MDBFileInfo};
 use mdb_shard::shard_format::MDBShardInfo;
 use mdb_shard::shard_in_memory::MDBInMemoryShard;
+use mdb_shard::set_operations::{shard_set_difference, shard_set_union};
+use mdb_shard::streaming_shard::MDBMinimalShard;
 use merklehash::MerkleHash;
+use std::io::Cursor;
+use std::panic::{catch_unwind, AssertUnwindSafe};
 
 fn h(x: u64) -> MerkleHash { MerkleHash::from([x, x + 1, x + 2, x + 3]) }
 fn xorb(id: u64, chunk_ids: &[u64]) -> MDBCASInfo {
@@ -27,6 +40,173 @@ fn written(s: &MDBInMemoryShard) -> u64 {
     MDBShardInfo::serialize_from(&mut buf, s).unwrap();
     buf.len() as u64
 }
+// ---------------------------------------------------------------- S5: byte totals beyond 32 bits
+const MIB: u32 = 1 << 20;
+fn witness(msg: String) -> ! {
+    println!("WITNESS {}", msg.replace('\n', " "));
+    std::process::exit(1);
+}
+fn guarded<T>(what: &str, f: impl FnOnce() -> T) -> T {
+    match catch_unwind(AssertUnwindSafe(f)) {
+        Ok(v) => v,
+        Err(e) => {
+            let msg = e.downcast_ref::<String>().cloned().or_else(|| e.downcast_ref::<&str>().map(|s| s.to_string())).unwrap_or_default();
+            witness(format!("{what}: the code under test panicked: {msg}"))
+        },
+    }
+}
+/// the records of a synthetic shard, kept outside the code under test
+#[derive(Default, Clone)]
+struct Records {
+    files: Vec<MDBFileInfo>,
+    xorbs: Vec<MDBCASInfo>,
+}
+impl Records {
+    /// (materialized, stored, stored on disk) as u64 sums over the records
+    fn totals(&self) -> (u64, u64, u64) {
+        let mut mat = 0u64;
+        for f in &self.files { for s in &f.segments { mat += s.unpacked_segment_bytes as u64; } }
+        let (mut st, mut od) = (0u64, 0u64);
+        for x in &self.xorbs { st += x.metadata.num_bytes_in_cas as u64; od += x.metadata.num_bytes_on_disk as u64; }
+        (mat, st, od)
+    }
+    fn to_mem(&self, ctx: &str) -> MDBInMemoryShard {
+        let mut s = MDBInMemoryShard::default();
+        for x in &self.xorbs { guarded(ctx, || s.add_cas_block(x.clone())).unwrap_or_else(|e| witness(format!("{ctx}: add_cas_block failed: {e:?}"))); }
+        for f in &self.files { guarded(ctx, || s.add_file_reconstruction_info(f.clone())).unwrap_or_else(|e| witness(format!("{ctx}: add_file_reconstruction_info failed: {e:?}"))); }
+        s
+    }
+    fn describe(&self) -> String {
+        let (m, s, d) = self.totals();
+        format!("{} files with {:?} segments, {} xorbs; record sums: materialized {m}, stored {s}, on disk {d}", self.files.len(), self.files.iter().map(|f| f.segments.len()).collect::<Vec<_>>(), self.xorbs.len())
+    }
+}
+/// one file of `n_seg` segments of 64 MiB, each segment one whole xorb of 16 chunks of 4 MiB (xorb ids from `base`)
+fn big_file(r: &mut Records, base: u64, n_seg: u64) {
+    let mut segments = vec![];
+    for i in 0..n_seg {
+        let xid = base + 100 * (i + 1);
+        let chunks: Vec<CASChunkSequenceEntry> = (0..16u32).map(|j| CASChunkSequenceEntry::new(h(xid * 1000 + j as u64), 4 * MIB, j * 4 * MIB)).collect();
+        let mut header = CASChunkSequenceHeader::new(h(xid), 16u32, 64 * MIB);
+        header.num_bytes_on_disk = 64 * MIB - 4096 + i as u32; // "compressed" a little
+        r.xorbs.push(MDBCASInfo { metadata: header, chunks });
+        segments.push(FileDataSequenceEntry::new(h(xid), 64 * MIB, 0, 16));
+    }
+    r.files.push(MDBFileInfo { metadata: FileDataSequenceHeader::new(h(base + 7), n_seg as u32, false, false), segments, verification: vec![], metadata_ext: None });
+}
+fn small_files(r: &mut Records, base: u64, n: u64) {
+    let xid = base + 50;
+    let chunks: Vec<CASChunkSequenceEntry> = (0..n as u32).map(|j| CASChunkSequenceEntry::new(h(xid * 1000 + j as u64), 1000 + j, j * 2000)).collect();
+    let total: u32 = chunks.iter().map(|c| c.unpacked_segment_bytes).sum();
+    let mut header = CASChunkSequenceHeader::new(h(xid), n as u32, total);
+    header.num_bytes_on_disk = total / 2;
+    r.xorbs.push(MDBCASInfo { metadata: header, chunks });
+    for j in 0..n {
+        r.files.push(MDBFileInfo {
+            metadata: FileDataSequenceHeader::new(h(base + 60 + j), 1, false, false),
+            segments: vec![FileDataSequenceEntry::new(h(xid), 1000 + j as u32, j as u32, j as u32 + 1)],
+            verification: vec![],
+            metadata_ext: None,
+        });
+    }
+}
+fn footer_totals(i: &MDBShardInfo) -> (u64, u64, u64) {
+    (i.materialized_bytes(), i.stored_bytes(), i.stored_bytes_on_disk())
+}
+fn expect_totals(ctx: &str, what: &str, got: (u64, u64, u64), want: (u64, u64, u64)) {
+    if got != want {
+        let names = ["materialized_bytes", "stored_bytes", "stored_bytes_on_disk"];
+        let g = [got.0, got.1, got.2];
+        let w = [want.0, want.1, want.2];
+        let diffs: Vec<String> = (0..3).filter(|&i| g[i] != w[i]).map(|i| format!("{} = {} but the records sum to {} (difference {} = {} * 2^32 + {})", names[i], g[i], w[i], w[i].wrapping_sub(g[i]), w[i].wrapping_sub(g[i]) >> 32, w[i].wrapping_sub(g[i]) & 0xffff_ffff)).collect();
+        witness(format!("{ctx}: {what}: {}", diffs.join("; ")));
+    }
+}
+fn check_big(name: &str, r: &Records, other: &Records) {
+    let ctx = format!("S5 '{name}' ({})", r.describe());
+    let want = r.totals();
+    let mem = r.to_mem(&ctx);
+    let got = guarded(&format!("{ctx}: MDBInMemoryShard::materialized_bytes / stored_bytes / stored_bytes_on_disk"), || (mem.materialized_bytes(), mem.stored_bytes(), mem.stored_bytes_on_disk()));
+    expect_totals(&ctx, "the in-memory shard's accounting", got, want);
+    let mut bytes = Vec::<u8>::new();
+    let info = guarded(&format!("{ctx}: MDBShardInfo::serialize_from"), || MDBShardInfo::serialize_from(&mut bytes, &mem)).unwrap_or_else(|e| witness(format!("{ctx}: serialize_from failed: {e:?}")));
+    expect_totals(&ctx, "the footer returned by serialize_from", footer_totals(&info), want);
+    let loaded = guarded(&ctx, || MDBShardInfo::load_from_reader(&mut Cursor::new(&bytes[..]))).unwrap_or_else(|e| witness(format!("{ctx}: the serialized shard does not load: {e:?}")));
+    expect_totals(&ctx, "the footer of the serialized shard read back", footer_totals(&loaded), want);
+    if mem.shard_file_size() != bytes.len() as u64 || loaded.num_bytes() != bytes.len() as u64 {
+        witness(format!("{ctx}: shard_file_size()={} footer-derived size={} bytes written={}", mem.shard_file_size(), loaded.num_bytes(), bytes.len()));
+    }
+    // MDBMinimalShard::serialize recomputes the totals from the records
+    let min = guarded(&ctx, || MDBMinimalShard::from_reader(&mut &bytes[..], true, true)).unwrap_or_else(|e| witness(format!("{ctx}: MDBMinimalShard::from_reader fails: {e:?}")));
+    let mut out = Vec::<u8>::new();
+    guarded(&format!("{ctx}: MDBMinimalShard::serialize"), || min.serialize(&mut out)).unwrap_or_else(|e| witness(format!("{ctx}: MDBMinimalShard::serialize fails: {e:?}")));
+    let i2 = guarded(&ctx, || MDBShardInfo::load_from_reader(&mut Cursor::new(&out[..]))).unwrap_or_else(|e| witness(format!("{ctx}: the output of MDBMinimalShard::serialize does not load: {e:?}")));
+    expect_totals(&ctx, "the footer written by MDBMinimalShard::serialize", footer_totals(&i2), want);
+    // keyed export
+    let mut out = Vec::<u8>::new();
+    guarded(&format!("{ctx}: export_as_keyed_shard"), || loaded.export_as_keyed_shard(&mut Cursor::new(&bytes[..]), &mut out, h(0xABCDEF), std::time::Duration::from_secs(3600), true, true, true))
+        .unwrap_or_else(|e| witness(format!("{ctx}: export_as_keyed_shard fails: {e:?}")));
+    let i3 = guarded(&ctx, || MDBShardInfo::load_from_reader(&mut Cursor::new(&out[..]))).unwrap_or_else(|e| witness(format!("{ctx}: the keyed export does not load: {e:?}")));
+    expect_totals(&ctx, "the footer written by export_as_keyed_shard (everything included)", footer_totals(&i3), want);
+    // set operations with a small disjoint shard
+    let omem = other.to_mem(&ctx);
+    let mut obytes = Vec::<u8>::new();
+    let oinfo = guarded(&ctx, || MDBShardInfo::serialize_from(&mut obytes, &omem)).unwrap_or_else(|e| witness(format!("{ctx}: serialize_from of the small shard failed: {e:?}")));
+    let (ow, w) = (other.totals(), want);
+    let both = (w.0 + ow.0, w.1 + ow.1, w.2 + ow.2);
+    for swapped in [false, true] {
+        let mut out = Vec::<u8>::new();
+        let what = if swapped { "shard_set_union(small shard, this shard)" } else { "shard_set_union(this shard, small shard)" };
+        let u = guarded(&format!("{ctx}: {what}"), || {
+            if swapped { shard_set_union(&oinfo, &mut Cursor::new(&obytes[..]), &loaded, &mut Cursor::new(&bytes[..]), &mut out) } else { shard_set_union(&loaded, &mut Cursor::new(&bytes[..]), &oinfo, &mut Cursor::new(&obytes[..]), &mut out) }
+        })
+        .unwrap_or_else(|e| witness(format!("{ctx}: {what} fails: {e:?}")));
+        expect_totals(&ctx, &format!("the footer returned by {what}"), footer_totals(&u), both);
+        let ul = guarded(&ctx, || MDBShardInfo::load_from_reader(&mut Cursor::new(&out[..]))).unwrap_or_else(|e| witness(format!("{ctx}: the output of {what} does not load: {e:?}")));
+        expect_totals(&ctx, &format!("the footer written by {what}"), footer_totals(&ul), both);
+    }
+    // difference(s1, s2) keeps the records of s2 that are not in s1
+    let mut out = Vec::<u8>::new();
+    let d = guarded(&format!("{ctx}: shard_set_difference(small shard, this shard)"), || shard_set_difference(&oinfo, &mut Cursor::new(&obytes[..]), &loaded, &mut Cursor::new(&bytes[..]), &mut out));
+    match d {
+        Ok(d) => {
+            // either convention (s1 \ s2 or s2 \ s1) yields one of the two operands here, the shards being disjoint
+            let t = footer_totals(&d);
+            if t != want && t != ow {
+                expect_totals(&ctx, "the footer returned by shard_set_difference of the two disjoint shards (must equal one operand's totals)", t, want);
+            }
+        },
+        Err(e) => witness(format!("{ctx}: shard_set_difference fails: {e:?}")),
+    }
+    let um = guarded(&format!("{ctx}: MDBInMemoryShard::union"), || mem.union(&omem)).unwrap_or_else(|e| witness(format!("{ctx}: union fails: {e:?}")));
+    let got = guarded(&format!("{ctx}: accounting of the in-memory union"), || (um.materialized_bytes(), um.stored_bytes(), um.stored_bytes_on_disk()));
+    expect_totals(&ctx, "the in-memory union with the small shard", got, both);
+    let mut ub = Vec::<u8>::new();
+    let ui = guarded(&format!("{ctx}: serialize_from(in-memory union)"), || MDBShardInfo::serialize_from(&mut ub, &um)).unwrap_or_else(|e| witness(format!("{ctx}: serialize_from of the union failed: {e:?}")));
+    expect_totals(&ctx, "the footer of the serialized in-memory union", footer_totals(&ui), both);
+    if um.shard_file_size() != ub.len() as u64 {
+        witness(format!("{ctx}: in-memory union: shard_file_size()={} bytes written={}", um.shard_file_size(), ub.len()));
+    }
+    let dm = guarded(&format!("{ctx}: MDBInMemoryShard::difference"), || omem.difference(&um)).unwrap_or_else(|e| witness(format!("{ctx}: difference fails: {e:?}")));
+    let got = guarded(&format!("{ctx}: accounting of the in-memory difference"), || (dm.materialized_bytes(), dm.stored_bytes(), dm.stored_bytes_on_disk()));
+    expect_totals(&ctx, "small.difference(union) = the records of the union that are not in the small shard = this shard", got, want);
+    println!("{ctx}: ok");
+}
+fn s5_large_totals() {
+    let mut other = Records::default();
+    small_files(&mut other, 9_000_000, 5);
+    let mut all = Records::default();
+    for (k, n_seg) in [63u64, 64, 80].into_iter().enumerate() {
+        let mut r = Records::default();
+        big_file(&mut r, 1_000_000 * (k as u64 + 1), n_seg);
+        small_files(&mut r, 1_000_000 * (k as u64 + 1) + 500_000, 3);
+        check_big(&format!("one file of {n_seg} segments of 64 MiB ({} bytes{}) and three small files", n_seg * 64 * MIB as u64, if n_seg == 64 { " = 2^32" } else { "" }), &r, &other);
+        big_file(&mut all, 1_000_000 * (k as u64 + 1), n_seg);
+    }
+    small_files(&mut all, 7_500_000, 4);
+    check_big("files of 63, 64 and 80 segments of 64 MiB in one shard, and four small files", &all, &other);
+}
+
 fn main() {
     let mut bad = false;
     // S1: the same file hash added twice
@@ -62,5 +242,7 @@ fn main() {
     println!("S4 difference keeping a xorb whose chunk hash is also in the removed xorb: shard_file_size()={} bytes written={}", a, b);
     if a != b { bad = true; }
     if bad { println!("WITNESS the in-memory size counter differs from the serialized size (see the S-lines above)"); std::process::exit(1); }
+    std::panic::set_hook(Box::new(|_| {}));
+    s5_large_totals();
     println!("no violation found");
 }
